@@ -149,7 +149,7 @@ theorem assign_spec {nVals : Nat} {h : Hist} {s : VState} {e : Event} (hv : Vali
 
 /-- the vector computed for the new event before fork detection -/
 def mergedParents (hb : HBT) (nBr me : Nat) (e : Event) : HBV :=
-  e.parents.foldl (fun v p => collectFrom v (hb.get p) nBr) (HBV.zero.set me ⟨e.seq, e.seq⟩)
+  e.parents.foldl (fun v p => VState.collectFrom v (hb.get p) nBr) (HBV.zero.set me ⟨e.seq, e.seq⟩)
 
 structure AddView (h : Hist) (s : VState) (e : Event) (s' : VState) (me : Nat) : Prop where
   nVals_eq : s'.nVals = s.nVals
